@@ -109,6 +109,7 @@ type Project struct {
 	SoilCSVOrder int               `json:"soil_csv_order,omitempty"` // column order of the CSV soil file (see SoilCSV)
 	FCode        string            `json:"fcode,omitempty"`          // weather station code = file name stem ("" = W)
 	Heights      *[3]float64       `json:"heights,omitempty"`        // third header line of the weather files: station altitude (m), wind measurement height (m), base CO2 (0 = "-"); layouts 0 and 1 only
+	CO2ByYear    map[int]float64   `json:"co2_by_year,omitempty"`    // CO2 concentration per calendar year: header slot of each year file (layout 1, needs Heights), CO2 column (layout 2)
 	NoRadColumn  bool              `json:"no_rad_column,omitempty"`  // the weather input carries no global radiation (no column; missing-value code in the one-file-per-year layout)
 }
 
@@ -559,7 +560,15 @@ func (p *Project) WeatherYearFiles() map[string]string {
 		if !ok {
 			b = &strings.Builder{}
 			b.WriteString("tavg;tmin;tmax;ET0;relhumid;vapp14;wind;sundu;globrad;precip;jday\nC;C;C;mm;%;mmHg;m/s;h;MJ;mm;\n")
-			b.WriteString(p.heightsLine(";"))
+			if v, ok := p.CO2ByYear[y]; ok && p.Heights != nil {
+				h := *p.Heights
+				h[2] = v
+				q := *p
+				q.Heights = &h
+				b.WriteString(q.heightsLine(";"))
+			} else {
+				b.WriteString(p.heightsLine(";"))
+			}
 			bufs[y] = b
 		}
 		none := -99.9
@@ -614,6 +623,9 @@ func (p *Project) WeatherCZ() string {
 	if p.VerdColumn {
 		b.WriteString(" VERD")
 	}
+	if p.CO2ByYear != nil {
+		b.WriteString(" CO2")
+	}
 	b.WriteString("\n")
 	t := D(p.WeatherStart)
 	for _, d := range p.Weather {
@@ -627,6 +639,9 @@ func (p *Project) WeatherCZ() string {
 		}
 		if p.VerdColumn {
 			fmt.Fprintf(&b, " %g", d.Verd)
+		}
+		if p.CO2ByYear != nil {
+			fmt.Fprintf(&b, " %g", p.CO2ByYear[t.Year()])
 		}
 		b.WriteString("\n")
 		t = t.AddDate(0, 0, 1)
